@@ -2,7 +2,7 @@
    protocol's micro-steps with snapshot-taking readers — provided nothing advances the visible seqno
    outside the journal mutex.  With lsm-tree's version-upgrade bump the statement is refuted. *)
 From FJ Require Import Bytes BytesP Conc.
-From Coq Require Import ZArith ZifyBool ZifyNat ZifyN.
+From Coq Require Import ZArith ZifyBool ZifyNat ZifyN Sorted.
 
 Section ConcP.
   Variable n : N.
@@ -101,3 +101,77 @@ Proof.
   eexists. split; [vm_compute; reflexivity|]. split; [vm_compute; left; reflexivity|].
   vm_compute. intros [H|[]]. discriminate.
 Qed.
+
+(* ---- C14 (partial): the order in which writes reach the memtable is the seqno order, which is the order in which the
+   journal mutex was taken; nothing applied is ever lost — for EVERY interleaving, version-upgrade bumps included ---- *)
+Section Lin.
+  Variable n : N.
+
+  Definition newest_first (l : list (N * N)) : Prop := StronglySorted (fun a b => fst b <= fst a) l.
+
+  Record LInv (s : cst) : Prop := {
+    li_sorted : newest_first (c_mem s);
+    li_fresh : forall p, In p (c_mem s) -> fst p < c_seq s;
+    li_drawn : forall q k, c_inflight s = Some (PDrawn q k) -> q < c_seq s /\ forall p, In p (c_mem s) -> fst p <= q
+  }.
+
+  Lemma linv_init : LInv cinit.
+  Proof. constructor; cbn; [constructor|intros p []|intros; discriminate]. Qed.
+
+  Lemma linv_step s e s' : LInv s -> cstep n s e = Some s' -> LInv s'.
+  Proof.
+    intros [S F D] H. destruct e; unfold cstep in H.
+    - destruct (c_inflight s) eqn:IF; [discriminate|]. inversion H; subst; clear H.
+      constructor; cbn; auto; intros; discriminate.
+    - destruct (c_inflight s) as [[|q k|q]|] eqn:IF; try discriminate. inversion H; subst; clear H.
+      constructor; cbn; [exact S|intros p I; specialize (F p I); lia|].
+      intros q k E. inversion E; subst. split; [lia|]. intros p I. specialize (F p I). lia.
+    - destruct (c_inflight s) as [[|q k|q]|] eqn:IF; try discriminate.
+      destruct (k <? n); [|discriminate]. inversion H; subst; clear H.
+      destruct (D q k eq_refl) as [D1 D2].
+      constructor; cbn.
+      + constructor; [exact S|]. rewrite Forall_forall. intros p I. cbn. apply D2, I.
+      + intros p [<-|I]; [cbn; lia|apply F, I].
+      + intros q' k' E. inversion E; subst. split; [lia|]. intros p [<-|I]; [cbn; lia|apply D2, I].
+    - destruct (c_inflight s) as [[|q k|q]|] eqn:IF; try discriminate.
+      destruct (k =? n); [|discriminate]. inversion H; subst; clear H.
+      constructor; cbn; auto; intros; discriminate.
+    - destruct (c_inflight s) as [[|q k|q]|] eqn:IF; try discriminate. inversion H; subst; clear H.
+      constructor; cbn; auto; intros; discriminate.
+    - inversion H; subst. constructor; assumption.
+    - inversion H; subst; clear H. constructor; cbn; [exact S|intros p I; specialize (F p I); lia|].
+      intros q k E. destruct (D q k E) as [D1 D2]. split; [lia|exact D2].
+  Qed.
+
+  Lemma linv_run es : forall s s', LInv s -> crun n s es = Some s' -> LInv s'.
+  Proof.
+    induction es as [|e r IH]; intros s s' I H; cbn in H; [inversion H; subst; exact I|].
+    destruct (cstep n s e) as [s1|] eqn:S; [|discriminate]. eapply IH; [|exact H]. eapply linv_step; eauto.
+  Qed.
+
+  Theorem apply_order_is_seqno_order es s : crun n cinit es = Some s -> newest_first (c_mem s).
+  Proof. intros H. exact (li_sorted _ (linv_run es cinit s linv_init H)). Qed.
+
+  Lemma mem_grows_step s e s' : cstep n s e = Some s' -> exists l, c_mem s' = l ++ c_mem s /\ c_seq s <= c_seq s'.
+  Proof.
+    intros H. destruct e; unfold cstep in H.
+    - destruct (c_inflight s); [discriminate|]. inversion H; subst. exists []. split; [reflexivity|cbn; lia].
+    - destruct (c_inflight s) as [[|q k|q]|]; try discriminate. inversion H; subst. exists []. split; [reflexivity|cbn; lia].
+    - destruct (c_inflight s) as [[|q k|q]|]; try discriminate. destruct (k <? n); [|discriminate].
+      inversion H; subst. exists [(q, k)]. split; [reflexivity|cbn; lia].
+    - destruct (c_inflight s) as [[|q k|q]|]; try discriminate. destruct (k =? n); [|discriminate].
+      inversion H; subst. exists []. split; [reflexivity|cbn; lia].
+    - destruct (c_inflight s) as [[|q k|q]|]; try discriminate. inversion H; subst. exists []. split; [reflexivity|cbn; lia].
+    - inversion H; subst. exists []. split; [reflexivity|lia].
+    - inversion H; subst. exists []. split; [reflexivity|cbn; lia].
+  Qed.
+
+  Theorem nothing_applied_is_lost es : forall s s', crun n s es = Some s' ->
+    (forall p, In p (c_mem s) -> In p (c_mem s')) /\ c_seq s <= c_seq s'.
+  Proof.
+    induction es as [|e r IH]; intros s s' H; cbn in H; [inversion H; subst; split; [auto|lia]|].
+    destruct (cstep n s e) as [s1|] eqn:S; [|discriminate].
+    destruct (mem_grows_step _ _ _ S) as [l [E L]]. destruct (IH _ _ H) as [A B]. split; [|lia].
+    intros p I. apply A. rewrite E. apply in_or_app. now right.
+  Qed.
+End Lin.
